@@ -98,7 +98,8 @@ PROPS = {
         "note": "Trusted: Lean kernel; axioms propext, Classical.choice, Quot.sound; path.Join/filepath.Dir/path.Clean of include resolution are modelled (Loader.resolve, tied by C14's paths stream and by the journal-of comparison here); goroutine arrival order is "
                 "sampled through schedule perturbation (its protocol-level treatment is C19; C05_layout_arrival covers every arrival order of the files).",
         "rule": "150 (quick) / 4000 (thorough) journals x 5-10 variants; variant 0 = original order in one file; others = random permutation distributed over a random include tree; a fifth of "
-                "the journals carry a lifecycle mutation so that rejecting verdicts are compared too. class = (verdict, flag signature, number of tree shapes, size).",
+                "the journals carry a lifecycle mutation so that rejecting verdicts are compared too. class = (verdict, flag signature, number of tree shapes, size). "
+                "Stream `order`: 200 / 2500 journals in which busy days of 2-6 same-day transactions on one account are followed, on a later day, by a directive that breaks one rule of the checker (booking on a closed / never opened / not yet opened account, second open or close, close with a position, failed assertion, assertion on a closed account; two valid controls), x 6-10 variants incl. same-day shuffles, plus 8 / 16 further orders judged in-process: every order and layout must give the same verdict, and the model's verdict.",
         "assumptions": ["journals with two prices for one commodity pair on one day are not generated (excluded by the property)"],
     },
     "C03": {
